@@ -42,6 +42,8 @@ pub struct Exec {
     pub txids: TxIds,
     pub out: Vec<(String, String)>,
     pub queue: OrderQueue,
+    /// C11: a level restored from a snapshot of `lvl`, fed the same continuation
+    pub fork: Option<(PriceLevel, UuidGenerator)>,
     // what the observer has counted so far on this level (for the judges)
     pub price: u64,
     pub issued: u64,
@@ -54,6 +56,11 @@ pub fn listing(l: &PriceLevel) -> String {
     let mut list: Vec<Order> = l.iter_orders().iter().map(|a| **a).collect();
     canon_sort(&mut list);
     show_list(&list, show_order)
+}
+
+/// price, aggregates and canonical listing in one token (what a round-trip must preserve)
+pub fn show_state_content(l: &PriceLevel) -> String {
+    format!("{}/{}/{}/{}/{}", l.price(), l.visible_quantity(), l.hidden_quantity(), l.order_count(), listing(l))
 }
 
 pub fn show_stats(l: &PriceLevel) -> String {
@@ -110,6 +117,7 @@ impl Exec {
             txids: TxIds::new(),
             out: Vec::new(),
             queue: OrderQueue::new(),
+            fork: None,
             price: 0,
             issued: 0,
             n_adds: 0,
@@ -181,6 +189,7 @@ impl Exec {
                 self.lvl = PriceLevel::new(p);
                 self.generator = UuidGenerator::new(Uuid::from_u128(NS));
                 self.price = p;
+                self.fork = None;
                 self.issued = 0;
                 self.n_adds = 0;
                 self.n_removed = 0;
@@ -189,6 +198,9 @@ impl Exec {
             }
             ["add", o] => {
                 let Some(o) = parse_order(o) else { return false };
+                if let Some((f, _)) = &self.fork {
+                    let _ = catch_unwind(AssertUnwindSafe(|| f.add_order(o)));
+                }
                 match catch_unwind(AssertUnwindSafe(|| self.lvl.add_order(o))) {
                     Ok(r) => {
                         self.n_adds += 1;
@@ -219,6 +231,12 @@ impl Exec {
                         self.emit(format!("judge.C06 {} {} {} {} {}", q, txs, r.remaining_quantity, pre, post), "J C06 ok");
                         let makers: Vec<String> = r.transactions.as_vec().iter().map(|t| format!("{}:{}", show_id(&t.maker_order_id), t.quantity)).collect();
                         self.emit(format!("judge.C04 [{}]", makers.join(",")), "J C04 ok");
+                        if let Some((f, g)) = &self.fork {
+                            if let Ok(fr) = catch_unwind(AssertUnwindSafe(|| f.match_order(q, taker, g))) {
+                                let fm: Vec<String> = fr.transactions.as_vec().iter().map(|t| format!("{}:{}", show_id(&t.maker_order_id), t.quantity)).collect();
+                                self.emit(format!("judge.C11 [{}] [{}]", makers.join(","), fm.join(",")), "J C11 ok");
+                            }
+                        }
                         self.issued += r.transactions.as_vec().len() as u64;
                         self.sum_exec += r.transactions.as_vec().iter().map(|t| t.quantity as u128).sum::<u128>();
                         self.judge_stats();
@@ -236,6 +254,9 @@ impl Exec {
                     pricelevel::OrderUpdate::Replace { price, .. } => price != self.price,
                     pricelevel::OrderUpdate::UpdateQuantity { .. } => false,
                 };
+                if let Some((f, _)) = &self.fork {
+                    let _ = catch_unwind(AssertUnwindSafe(|| f.update_order(u)));
+                }
                 let outtok = match catch_unwind(AssertUnwindSafe(|| self.lvl.update_order(u))) {
                     Ok(Ok(o)) => {
                         if removal && o.is_some() {
@@ -254,6 +275,70 @@ impl Exec {
                 let post = listing(&self.lvl);
                 self.emit(format!("judge.C07 {} {} {} {} {}", self.price, pre, post, outtok, rest.join(" ")), "J C07 ok");
                 self.judge_stats();
+            }
+            ["rebuild", kind] | ["fork", kind] => {
+                let is_fork = t[0] == "fork";
+                let pre = show_state_content(&self.lvl);
+                let snap = self.lvl.snapshot();
+                let ids: Vec<OrderId> = snap.orders.iter().map(|o| o.id()).collect();
+                let raw_listing: Vec<Order> = snap.orders.iter().map(|a| **a).collect();
+                let lvl = &self.lvl;
+                let res = catch_unwind(AssertUnwindSafe(|| -> Result<PriceLevel, String> {
+                    match *kind {
+                        "snapshot" => PriceLevel::from_snapshot(snap.clone()).map_err(|e| e.to_string()),
+                        "from" => Ok(PriceLevel::from(&snap)),
+                        "package" => lvl.snapshot_package().and_then(PriceLevel::from_snapshot_package).map_err(|e| e.to_string()),
+                        "json" => lvl.snapshot_to_json().and_then(|j| PriceLevel::from_snapshot_json(&j)).map_err(|e| e.to_string()),
+                        "data" => PriceLevel::try_from(pricelevel::PriceLevelData::from(lvl)).map_err(|e| e.to_string()),
+                        "serde" => serde_json::to_string(lvl).map_err(|e| e.to_string()).and_then(|j| serde_json::from_str::<PriceLevel>(&j).map_err(|e| e.to_string())),
+                        "text" => {
+                            use std::str::FromStr;
+                            PriceLevel::from_str(&lvl.to_string()).map_err(|e| e.to_string())
+                        }
+                        "lying-snapshot" => {
+                            let mut s2 = snap.clone();
+                            s2.visible_quantity = s2.visible_quantity.wrapping_add(17);
+                            s2.hidden_quantity = 3;
+                            s2.order_count = s2.order_count.wrapping_add(2);
+                            PriceLevel::from_snapshot(s2).map_err(|e| e.to_string())
+                        }
+                        "lying-data" => {
+                            let mut d = pricelevel::PriceLevelData::from(lvl);
+                            d.visible_quantity = d.visible_quantity.wrapping_add(9);
+                            d.hidden_quantity = 1;
+                            d.order_count = 77;
+                            PriceLevel::try_from(d).map_err(|e| e.to_string())
+                        }
+                        _ => Err("unknown rebuild kind".to_string()),
+                    }
+                }));
+                let line_in = format!("{} {} {}", t[0], kind, show_list(&ids, show_id));
+                match res {
+                    Ok(Ok(newl)) => {
+                        if is_fork {
+                            self.fork = Some((newl, UuidGenerator::new(Uuid::from_u128(NS))));
+                            // the fork's generator must be at the same counter as the main one
+                            if let Some((_, g)) = &self.fork {
+                                for _ in 0..self.issued {
+                                    let _ = g.next();
+                                }
+                            }
+                            self.emit(line_in, "fork ok");
+                        } else {
+                            self.lvl = newl;
+                            // statistics start afresh in a rebuilt level
+                            self.n_removed = 0;
+                            self.sum_exec = 0;
+                            self.n_adds = if matches!(*kind, "data" | "serde" | "text" | "lying-data") { ids.len() as u64 } else { 0 };
+                            self.emit(line_in, "rebuild ok");
+                            let post = show_state_content(&self.lvl);
+                            self.emit(format!("judge.C10 {pre} {post}"), "J C10 ok");
+                        }
+                        self.emit(format!("judge.C10list {}", show_list(&raw_listing, show_order)), "J C10 ok");
+                    }
+                    Ok(Err(e)) => self.emit(line_in, format!("{} err={}", t[0], e.replace(' ', "_"))),
+                    Err(_) => self.emit(line_in, "PANIC"),
+                }
             }
             ["qnew"] => {
                 self.queue = OrderQueue::new();
